@@ -118,11 +118,16 @@ struct Shared {
     first_double: AtomicUsize,
 }
 
-fn make_task(sh: &Arc<Shared>, ex: &Arc<WorkStealingExecutor>, idx: usize) -> Box<dyn Task> {
+/// How do_submit hands a task to the executor (set only by the `closure` / `estdur` families, 0 everywhere else):
+/// 0 submit(Box<ClosureTask>), 1 submit_closure(..) for specs with the defaults (priority 0, stealable), 2 ClosureTask::with_estimated_duration
+static SUBMIT_MODE: AtomicU8 = AtomicU8::new(0);
+struct ModeGuard;
+impl Drop for ModeGuard { fn drop(&mut self) { SUBMIT_MODE.store(0, SeqCst); } }
+
+fn task_body(sh: &Arc<Shared>, ex: &Arc<WorkStealingExecutor>, idx: usize) -> impl FnOnce() -> BoxFut<ZResult<()>> + Send + 'static {
     let sp = sh.specs[idx].clone();
     let (sh2, ex2) = (sh.clone(), if sp.child.is_some() { Some(ex.clone()) } else { None });
-    let (prio, stealable) = (sp.prio, sp.stealable);
-    let t = ClosureTask::new(move || -> BoxFut<ZResult<()>> {
+    move || -> BoxFut<ZResult<()>> {
         Box::pin(async move {
             reset_idle();
             sh2.running.fetch_add(1, SeqCst);
@@ -135,13 +140,17 @@ fn make_task(sh: &Arc<Shared>, ex: &Arc<WorkStealingExecutor>, idx: usize) -> Bo
             reset_idle();
             if sp.err { Err(zerr("task failed on purpose")) } else { Ok(()) }
         })
-    }).with_priority(prio).with_stealable(stealable);
-    Box::new(t)
+    }
+}
+fn make_task(sh: &Arc<Shared>, ex: &Arc<WorkStealingExecutor>, idx: usize) -> Box<dyn Task> {
+    let (prio, stealable) = (sh.specs[idx].prio, sh.specs[idx].stealable);
+    let t = ClosureTask::new(task_body(sh, ex, idx)).with_priority(prio).with_stealable(stealable);
+    if SUBMIT_MODE.load(SeqCst) == 2 { Box::new(t.with_estimated_duration(Duration::from_micros((idx as u64 * 7919) % 50_000))) } else { Box::new(t) }
 }
 fn do_submit(sh: &Arc<Shared>, ex: &Arc<WorkStealingExecutor>, idx: usize) {
     sh.inflight.fetch_add(1, SeqCst);
     reset_idle();
-    let r = ex.submit(make_task(sh, ex, idx));
+    let r = if SUBMIT_MODE.load(SeqCst) == 1 && sh.specs[idx].prio == 0 && sh.specs[idx].stealable { ex.submit_closure(task_body(sh, ex, idx)) } else { ex.submit(make_task(sh, ex, idx)) };
     sh.state[idx].store(if r.is_ok() { 1 } else { 2 }, SeqCst);
     reset_idle();
     sh.inflight.fetch_sub(1, SeqCst);
@@ -196,6 +205,10 @@ fn run_exec(c: &mut Case, p: ExecParams) -> Res {
 
 async fn exec_scenario(c: &mut Case, p: &ExecParams) -> Res {
     let ex = match WorkStealingExecutor::new(p.workers, p.cap) { Ok(e) => e, Err(e) => return fail("ctor_err", format!("WorkStealingExecutor::new({}, {}) failed: {e}", p.workers, p.cap)) };
+    exec_scenario_on(c, p, ex).await
+}
+/// the scenario on a given executor (`ex` has `p.workers` workers whose idle polls feed IDLE[0..p.workers])
+async fn exec_scenario_on(c: &mut Case, p: &ExecParams, ex: Arc<WorkStealingExecutor>) -> Res {
     let n = p.specs.len();
     let sh = Arc::new(Shared { slots: (0..n).map(|_| AtomicU32::new(0)).collect(), state: (0..n).map(|_| AtomicU8::new(0)).collect(), specs: p.specs.clone(),
         running: AtomicUsize::new(0), inflight: AtomicUsize::new(0), doubles: AtomicU64::new(0), first_double: AtomicUsize::new(usize::MAX) });
@@ -852,11 +865,386 @@ fn other_targets(ctx: &mut Ctx) {
     for idx in 0..ctx.n(12, 300) as u64 { ctx.case("asyncstore/file", "mix", idx, |c| store_case(c, true)); }
 }
 
+// ==== gap wave: functions of the anchor files that no case reached ====================================================
+use zipora::concurrency::async_blob_store::AsyncCompressedBlobStore;
+use zipora::concurrency::fiber_aio::{FiberAio, FiberAioConfig, IoProvider, VectoredIo};
+use zipora::concurrency::fiber_pool::FiberPoolBuilder;
+use zipora::concurrency::fiber_yield::{AdaptiveYieldScheduler, FiberYield, GlobalYield, YieldConfig, YieldPoint};
+use zipora::concurrency::pipeline::{FilterStage, PipelineBuilder};
+use zipora::concurrency::work_stealing::WorkStealingQueue;
+use zipora::concurrency::ConcurrencyConfig;
+
+// ---- executor: submit_closure / with_estimated_duration / the global instance ------------------------------------------
+/// mode 1: tasks go in through submit_closure (== submit of a default ClosureTask); mode 2: every task carries an estimated duration
+fn gen_altsubmit(c: &mut Case, w: usize, f: Flav, mode: u8) -> ExecParams {
+    let cap = *c.rng.pick(CAPS); let l = count_list(w, cap); let n = (*c.rng.pick(&l)).min(400);
+    let mut specs = gen_specs(c, n, if mode == 1 { 0 } else { 30 }, true);
+    if mode == 1 { let all = c.rng.bool(); for s in specs.iter_mut() { if all || c.rng.chance(3, 4) { s.prio = 0; s.stealable = true; } } }
+    let top = n; // children (appended by gen_specs) are submitted by their parents
+    ExecParams { workers: w, cap, flav: f, specs, phases: vec![(0..top).collect()], submitters: 1 + c.rng.usize_below(3), yield_every: if c.rng.bool() { 1 + c.rng.usize_below(16) } else { 0 }, hook_pct: *c.rng.pick(&[0u64, 25]), k: k_for(f) }
+}
+fn altsubmit_case(c: &mut Case, w: usize, f: Flav, mode: u8) -> Res {
+    let p = gen_altsubmit(c, w, f, mode);
+    c.input_str("submit_mode", if mode == 1 { "submit_closure" } else { "with_estimated_duration" });
+    let _g = ModeGuard; SUBMIT_MODE.store(mode, SeqCst);
+    run_exec(c, p)
+}
+/// init_concurrency + WorkStealingExecutor::global(): the OnceLock can be set once per process and its workers live on the runtime
+/// of the case that set it, so only that case submits work (same oracles as exec/*); later cases check that a second init is a
+/// no-op that leaves the instance in place.
+fn global_exec_case(c: &mut Case) -> Res {
+    let workers = *c.rng.pick(&[1usize, 2, 3]); let cap = *c.rng.pick(CAPS);
+    let n = { let l = count_list(workers, cap); (*c.rng.pick(&l)).min(400) };
+    let ns = *c.rng.pick(&[0u64, 30, 100]); let specs = gen_specs(c, n, ns, true);
+    let p = ExecParams { workers, cap, flav: Flav::Ct, specs, phases: vec![(0..n).collect()], submitters: 1 + c.rng.usize_below(3), yield_every: if c.rng.bool() { 3 } else { 0 }, hook_pct: 0, k: k_for(Flav::Ct) };
+    describe(c, &p);
+    hook_reset(c.rng.next(), 0); POLLERS.store(0, SeqCst); POLL_CALLS.store(0, SeqCst);
+    let rt = Flav::Ct.build();
+    let r = rt.block_on(async {
+        let before = WorkStealingExecutor::global().cloned();
+        let cfg = ConcurrencyConfig { max_fibers: workers, queue_size: cap, ..ConcurrencyConfig::default() };
+        if let Err(e) = zipora::concurrency::init_concurrency(cfg).await { c.note("init_refused", 1); c.log(format!("init_concurrency: {e}")); c.set_nontrivial(false); return Ok(()); }
+        let g = match WorkStealingExecutor::global() { Some(g) => g.clone(), None => return fail("global_missing_after_init", "init_concurrency returned Ok(()) but WorkStealingExecutor::global() is None") };
+        c.ev(1);
+        let res = match before {
+            Some(b) => { c.note("global_already_initialised", 1); c.set_nontrivial(false); ensure!(Arc::ptr_eq(&b, &g), "global_replaced", "a second init_concurrency replaced the global executor"); Ok(()) }
+            None => { c.note("global_fresh", 1); exec_scenario_on(c, &p, g).await }
+        };
+        // zero-sized configurations: the documentation only says the configuration is verified
+        for (mf, qs) in [(0usize, cap), (workers, 0usize)] { let r = zipora::concurrency::init_concurrency(ConcurrencyConfig { max_fibers: mf, queue_size: qs, ..ConcurrencyConfig::default() }).await; c.note(if r.is_err() { "init_refuses_zero_config" } else { "init_accepts_zero_config" }, 1); }
+        res
+    });
+    drop(rt); HOOK_PCT.store(0, SeqCst); r
+}
+
+// ---- WorkStealingQueue driven directly: any interleaving of push_local / pop_local / steal / balance -------------------
+fn queue_model_case(c: &mut Case) -> Res {
+    let cap = *c.rng.pick(&[0usize, 1, 2, 3, 8, 64]); let wid = c.rng.usize_below(1000); let nops = pick_n(c, 400);
+    let prio_mode = c.rng.below(3); let nosteal_pct = *c.rng.pick(&[0u64, 30, 100]);
+    // 0..=4 push, 5 6 pop_local, 7 8 steal, 9 balance
+    let ops: Vec<(u8, u8, bool)> = (0..nops).map(|_| (c.rng.below(10) as u8, match prio_mode { 0 => 0, 1 => c.rng.below(3) as u8, _ => c.rng.next() as u8 }, !c.rng.chance(nosteal_pct, 100))).collect();
+    c.input_str("queue", &format!("capacity={cap} worker_id={wid} nosteal_pct={nosteal_pct}")); c.input("ops", &ops.iter().flat_map(|o| [o.0, o.1, o.2 as u8]).collect::<Vec<u8>>());
+    c.set_nontrivial(ops.iter().filter(|o| o.0 <= 4).count() >= 2 && cap >= 1);
+    let rt = Flav::Ct.build();
+    let q = WorkStealingQueue::new(wid, cap);
+    ensure!(q.worker_id() == wid, "worker_id", "worker_id()={} for WorkStealingQueue::new({wid}, {cap})", q.worker_id());
+    let log: Arc<Mutex<Vec<usize>>> = Arc::new(Mutex::new(Vec::new()));
+    let mut meta: Vec<(u8, bool)> = Vec::new(); let mut state: Vec<u8> = Vec::new(); // 0 queued, 1 handed out, 2 refused
+    let mut outstanding = 0usize;
+    // hand a task that came out of the queue to the "worker": run it and learn which one it was
+    let run = |t: Box<dyn Task>, state: &mut Vec<u8>, outstanding: &mut usize| -> Result<usize, Fail> {
+        let before = log.lock().unwrap().len();
+        let _ = rt.block_on(t.execute());
+        let l = log.lock().unwrap(); ensure!(l.len() == before + 1, "task_body_runs", "executing a dequeued task ran {} bodies", l.len() - before);
+        let id = l[before];
+        ensure!(state[id] == 0, if state[id] == 1 { "ran_twice" } else { "refused_task_ran" }, "task {id} came out of the queue in state {}", state[id]);
+        state[id] = 1; *outstanding -= 1; Ok(id)
+    };
+    for (i, &(op, prio, stealable)) in ops.iter().enumerate() {
+        match op {
+            0..=4 => { let id = meta.len(); meta.push((prio, stealable)); let l2 = log.clone();
+                let t = ClosureTask::new(move || -> BoxFut<ZResult<()>> { l2.lock().unwrap().push(id); Box::pin(async { Ok(()) }) }).with_priority(prio).with_stealable(stealable);
+                match q.push_local(Box::new(t)) { Ok(()) => { state.push(0); outstanding += 1; } Err(_) => { state.push(2); c.note("push_refused", 1); ensure!(outstanding >= cap, "spurious_reject", "op {i}: push_local refused with {outstanding} tasks queued, capacity {cap}"); } } }
+            5 | 6 => { if let Some(t) = q.pop_local() { run(t, &mut state, &mut outstanding)?; c.note("popped", 1); } }
+            7 | 8 => { if let Some(t) = q.steal() { let id = run(t, &mut state, &mut outstanding)?; c.note("stolen", 1); ensure!(meta[id].1, "stole_nonstealable", "op {i}: steal() handed out task {id}, which is not stealable"); } }
+            _ => q.balance(),
+        }
+        let l = q.len(); ensure!(l == outstanding, "queue_len", "op {i} (kind {op}): len()={l} but {outstanding} accepted tasks have not been handed out");
+        ensure!(q.is_empty() == (outstanding == 0), "queue_is_empty", "op {i}: is_empty()={} with {outstanding} tasks queued", q.is_empty());
+        c.ev(2);
+    }
+    // drain as the owner: priorities must come out highest first; then whatever only steal() can reach
+    let mut last: Option<u8> = None;
+    while let Some(t) = q.pop_local() { let id = run(t, &mut state, &mut outstanding)?; if let Some(lp) = last { ensure!(meta[id].0 <= lp, "pop_priority_order", "pop_local handed out priority {} after priority {lp}", meta[id].0); } last = Some(meta[id].0); c.ev(1); }
+    loop { let a = q.steal(); let b = q.pop_local(); if a.is_none() && b.is_none() { break; }
+        if let Some(t) = a { let id = run(t, &mut state, &mut outstanding)?; ensure!(meta[id].1, "stole_nonstealable", "drain: steal() handed out non-stealable task {id}"); } if let Some(t) = b { run(t, &mut state, &mut outstanding)?; } }
+    let lost: Vec<usize> = (0..state.len()).filter(|&i| state[i] == 0).collect();
+    ensure!(lost.is_empty(), "lost_task", "{} accepted tasks never came out of the queue (first: #{} prio={} stealable={}); len()={}", lost.len(), lost[0], meta[lost[0]].0, meta[lost[0]].1, q.len());
+    ensure!(q.is_empty() && q.len() == 0, "queue_len", "len()={} after the drain", q.len());
+    c.ev(state.len() as u64 + 1);
+    drop(rt); Ok(())
+}
+
+// ---- FiberPool: builder / default constructors, handle id / is_finished / abort, load_factor / is_at_capacity ----------
+fn fiber_builder_case(c: &mut Case, fl: Flav) -> Res {
+    let cfg = pool_cfg(c); let which = c.rng.below(4); // 0 1 builder with every setter, 2 FiberPool::default(), 3 FiberPoolBuilder::default().build()
+    let n = pick_n(c, 200); let items = gen_items(c, n); let fails = gen_fail_set(c, n);
+    let m = pick_n(c, 64); let aborts: HashSet<usize> = if m > 0 && c.rng.chance(1, 2) { (0..1 + c.rng.usize_below(3)).map(|_| c.rng.usize_below(m)).collect() } else { HashSet::new() };
+    c.input_str("flav", &fl.name()); c.input_str("ctor", &which.to_string()); c.input("items", &le_bytes(&items)); c.input_str("fail_at", &fmt_set(&fails)); c.input_str("gated", &m.to_string()); c.input_str("abort", &fmt_set(&aborts));
+    c.set_nontrivial(n >= 2 || m >= 2);
+    let eff = if which <= 1 { cfg.clone() } else { FiberPoolConfig::default() };
+    let want: Vec<u64> = items.iter().map(|&x| mapf(x)).collect();
+    let rt = fl.build();
+    let r = rt.block_on(async {
+        let pool = match which {
+            0 | 1 => FiberPoolBuilder::new().max_fibers(cfg.max_fibers).initial_workers(cfg.initial_workers).max_workers(cfg.max_workers).queue_capacity(cfg.queue_capacity).idle_timeout(cfg.idle_timeout).build(),
+            2 => FiberPool::default(),
+            _ => FiberPoolBuilder::default().build(),
+        }.map_err(|e| Fail { oracle: "ctor_err".into(), detail: format!("FiberPool builder/default: {e}") })?;
+        // the pool built this way behaves like FiberPool::new(cfg): parallel_map == sequential map
+        let fs = Arc::new(fails.clone());
+        let f = move |(i, x): (usize, u64)| -> ZResult<u64> { if fs.contains(&i) { Err(zerr("item failed")) } else { Ok(mapf(x)) } };
+        let input: Vec<(usize, u64)> = items.iter().copied().enumerate().collect();
+        let got = bounded(fl, "FiberPool(builder)::parallel_map", pool.parallel_map(input, f)).await?;
+        cmp_seq(c, "FiberPool(builder)::parallel_map", &got, &want, !fails.is_empty())?;
+        let base = pool.stats().total_spawned;
+        // m fibers parked on a gate: nothing may finish, at most max_fibers are in flight
+        let gate = Arc::new(tokio::sync::Semaphore::new(0));
+        let slots: Arc<Vec<AtomicU32>> = Arc::new((0..m).map(|_| AtomicU32::new(0)).collect());
+        let hs: Vec<_> = (0..m).map(|i| { let (g, s) = (gate.clone(), slots.clone()); pool.spawn(async move { s[i].fetch_add(1, SeqCst); let p = g.acquire().await.map_err(|_| zerr("gate closed"))?; p.forget(); Ok(mapf(i as u64)) }) }).collect();
+        let ids: HashSet<u64> = hs.iter().map(|h| h.id()).collect();
+        ensure!(ids.len() == m, "duplicate_id", "{m} fiber handles carry {} distinct ids", ids.len());
+        // (fibers of a parallel_map that returned at its first failing handle may still be queued: give them their polls too)
+        if fl.paused() { for _ in 0..3 * (m + n) + 8 { tokio::task::yield_now().await; } }
+        for (i, h) in hs.iter().enumerate() { ensure!(!h.is_finished(), "finished_early", "fiber {i} is_finished() while it is parked on a closed gate"); let _ = h.elapsed(); }
+        let lf = pool.load_factor(); let st = pool.stats();
+        ensure!(st.active_fibers <= eff.max_fibers && lf <= 1.0, "in_flight_limit", "active_fibers={} load_factor={lf} with max_fibers={}", st.active_fibers, eff.max_fibers);
+        if fl.paused() {
+            let inflight = m.min(eff.max_fibers);
+            ensure!(st.active_fibers == inflight, "in_flight_count", "{m} parked fibers, max_fibers={}: active_fibers={}", eff.max_fibers, st.active_fibers);
+            ensure!(pool.is_at_capacity() == (m >= eff.max_fibers), "is_at_capacity", "is_at_capacity()={} with {inflight} of {} fibers in flight", pool.is_at_capacity(), eff.max_fibers);
+            let started = (0..m).filter(|&i| slots[i].load(SeqCst) > 0).count(); ensure!(started == inflight, "in_flight_limit", "{started} fiber bodies started with max_fibers={}", eff.max_fibers);
+            c.ev(3);
+        }
+        for &i in &aborts { hs[i].abort(); }
+        gate.add_permits(m);
+        for (i, h) in hs.into_iter().enumerate() {
+            let r = bounded(fl, "FiberHandle", h).await?; c.ev(1);
+            match (r, aborts.contains(&i)) { (Ok(v), false) => ensure!(v == mapf(i as u64), "result_value", "fiber {i} returned {v}"), (Err(_), true) => {}
+                // on the multi-thread runtimes the fiber may not have had its first poll yet when abort() + add_permits() happen: abort can lose the race against completion
+                (Ok(v), true) if !fl.paused() && v == mapf(i as u64) => { c.note("abort_lost_race", 1); }
+                (Ok(v), true) => return fail("error_swallowed", format!("fiber {i} was aborted while parked but its handle returned Ok({v})")), (Err(e), false) => return fail("unexpected_err", format!("fiber {i}: {e}")) }
+        }
+        for i in 0..m { let k = slots[i].load(SeqCst); ensure!(k <= 1, "ran_twice", "fiber {i} executed {k} times"); if !aborts.contains(&i) { ensure!(k == 1, "lost_task", "fiber {i} never executed"); } }
+        match bounded(fl, "FiberPool::shutdown", pool.shutdown()).await? { Ok(()) => {} Err(e) => return fail("unexpected_err", format!("shutdown: {e}")) }
+        let st = pool.stats();
+        ensure!(st.total_spawned == base + m as u64, "stats_spawned", "total_spawned={} want {}", st.total_spawned, base + m as u64);
+        // shutdown() waits for the fibers that hold a permit; fibers left behind by a failed parallel_map may not even have been polled yet on a multi-thread runtime
+        if aborts.is_empty() && (fails.is_empty() || fl.paused()) { ensure!(st.active_fibers == 0 && pool.load_factor() == 0.0 && !pool.is_at_capacity(), "not_idle_after_drain", "active_fibers={} load_factor={} after every handle completed", st.active_fibers, pool.load_factor()); }
+        else if st.active_fibers != 0 { c.note("active_fibers_nonzero_after_abort", 1); } // statistics of aborted fibers are not specified
+        Ok(())
+    });
+    drop(rt); r
+}
+
+fn spawn_blocking_case(c: &mut Case, fl: Flav) -> Res {
+    let n = pick_n(c, 60); let items = gen_items(c, n); let fails = gen_fail_set(c, n);
+    c.input_str("flav", &fl.name()); c.input("items", &le_bytes(&items)); c.input_str("fail_at", &fmt_set(&fails));
+    c.set_nontrivial(n >= 2);
+    let rt = fl.build();
+    let r = rt.block_on(async {
+        let calls: Arc<Vec<AtomicU32>> = Arc::new((0..n).map(|_| AtomicU32::new(0)).collect());
+        let hs: Vec<_> = items.iter().copied().enumerate().map(|(i, x)| { let (cl, bad) = (calls.clone(), fails.contains(&i)); tokio::spawn(zipora::concurrency::spawn_blocking(move || -> ZResult<u64> { cl[i].fetch_add(1, SeqCst); if bad { Err(zerr("item failed")) } else { Ok(mapf(x)) } })) }).collect();
+        for (i, h) in hs.into_iter().enumerate() {
+            let r = bounded(fl, "spawn_blocking", h).await?.map_err(|e| Fail { oracle: "unexpected_err".into(), detail: format!("join: {e}") })?; c.ev(1);
+            match (r, fails.contains(&i)) { (Ok(v), false) => ensure!(v == mapf(items[i]), "result_value", "spawn_blocking #{i} returned {v}, want {}", mapf(items[i])), (Err(_), true) => {}
+                (Ok(v), true) => return fail("error_swallowed", format!("failing closure {i} returned Ok({v})")), (Err(e), false) => return fail("unexpected_err", format!("spawn_blocking #{i}: {e}")) }
+            let k = calls[i].load(SeqCst); ensure!(k == 1, if k == 0 { "lost_task" } else { "ran_twice" }, "closure {i} executed {k} times");
+        }
+        Ok(())
+    });
+    drop(rt); r
+}
+
+// ---- Pipeline: PipelineBuilder == Pipeline::new(cfg); FilterStage; BatchMapStage::with_max_concurrency; stats() ---------
+fn pipe_builder_case(c: &mut Case) -> Res {
+    let fl = Flav::Ct; let n = pick_n(c, 120); let items = gen_items(c, n);
+    let kind = c.rng.below(3); // 0 MapStage, 1 FilterStage, 2 BatchMapStage::with_batch_support(..).with_max_concurrency(k)
+    let beh = gen_beh(c, n, false, kind != 1); let batching = c.rng.bool(); let cfg = pipe_cfg(c, batching); let conc = *c.rng.pick(&[0usize, 1, 2, 7, 1000]); let modulus = 1 + c.rng.below(5);
+    c.input("items", &le_bytes(&items)); c.input_str("stage", &format!("kind={kind} {} max_concurrency={conc} filter_mod={modulus}", beh_desc(&beh)));
+    c.set_nontrivial(n >= 2);
+    let input: Vec<It> = items.iter().copied().enumerate().collect();
+    let want: Vec<It> = input.iter().map(|&(i, x)| (i, beh.f(x))).collect();
+    let must_fail = !bad_items(&beh).is_empty(); let beh = Arc::new(beh);
+    let rt = fl.build();
+    let r = rt.block_on(async {
+        let p = PipelineBuilder::new().buffer_size(cfg.buffer_size).max_in_flight(cfg.max_in_flight).stage_timeout(cfg.stage_timeout).enable_batching(cfg.enable_batching).batch_size(cfg.batch_size).batch_timeout(cfg.batch_timeout).build();
+        let b = beh.clone(); let one = move |it: It| -> ZResult<It> { if b.fail.contains(&it.0) { Err(zerr("stage failed")) } else { Ok((it.0, b.f(it.1))) } };
+        let one2 = one.clone(); let many = move |v: Vec<It>| -> ZResult<Vec<It>> { v.into_iter().map(&one2).collect() };
+        let ok = match kind {
+            0 => { let got = bounded(fl, "process_batch", p.process_batch(MapStage::new("m".into(), one.clone()), input.clone())).await?; cmp_seq(c, "PipelineBuilder pipeline / MapStage", &got, &want, must_fail)?;
+                   // one item at a time through the same pipeline: execute_single == the stage function
+                   if let Some(&(i, x)) = input.first() { let r1 = bounded(fl, "execute_single", p.execute_single(MapStage::new("m1".into(), one), (i, x))).await?; ensure!(r1.is_ok() == !beh.fail.contains(&i) && r1.as_ref().map_or(true, |v| *v == want[0]), "result_value", "execute_single on the built pipeline: {r1:?} want {:?}", want[0]); }
+                   got.is_ok() }
+            1 => { let keep = move |it: &It| it.1 % modulus == 0; let wantf: Vec<Option<It>> = input.iter().map(|it| if keep(it) { Some(*it) } else { None }).collect();
+                   let got = bounded(fl, "process_batch", p.process_batch(FilterStage::new("f".into(), keep), input.clone())).await?; cmp_seq(c, "FilterStage", &got, &wantf, false)?; true }
+            _ => { let got = bounded(fl, "process_batch", p.process_batch(BatchMapStage::with_batch_support("bmc".into(), one, many).with_max_concurrency(conc), input.clone())).await?; cmp_seq(c, "BatchMapStage::with_max_concurrency", &got, &want, must_fail)?; got.is_ok() }
+        };
+        let st = p.stats().await;
+        if ok && !must_fail { let done = n as u64 + if kind == 0 && n > 0 { 1 } else { 0 };
+            ensure!(st.items_in_flight == 0, "in_flight_after_drain", "stats().items_in_flight={} after every call returned Ok", st.items_in_flight);
+            ensure!(st.total_processed == done, "stats_total_processed", "stats().total_processed={} after {done} items went through", st.total_processed); c.ev(2);
+        } else if st.items_in_flight != 0 { c.note("items_in_flight_nonzero_after_error", 1); } // accounting after a failed call is not specified
+        Ok(())
+    });
+    drop(rt); r
+}
+
+// ---- fiber_yield primitives inside cooperating tasks: every step of every task runs once, in order, and all tasks finish --
+fn yield_prims_case(c: &mut Case) -> Res {
+    let fl = Flav::Ct; let k = 1 + c.rng.usize_below(5); let steps = pick_n(c, 80); let interval = *c.rng.pick(&[1usize, 2, 3, 7, 64]);
+    let custom = c.rng.bool(); let ycfg = if custom { YieldConfig { initial_budget: *c.rng.pick(&[0u8, 1, 2, 16]), max_budget: 32, min_budget: 1, decay_rate: 0.1, yield_threshold: Duration::from_micros(*c.rng.pick(&[0u64, 100, 1_000_000])), adaptive_budgeting: c.rng.bool() } } else { YieldConfig::default() };
+    let ops: Vec<Vec<u8>> = (0..k).map(|_| (0..steps).map(|_| c.rng.below(10) as u8).collect()).collect();
+    c.input_str("cfg", &format!("tasks={k} interval={interval} custom={custom} initial_budget={} threshold_us={} adaptive={}", ycfg.initial_budget, ycfg.yield_threshold.as_micros(), ycfg.adaptive_budgeting)); for o in &ops { c.input("ops", o); }
+    c.set_nontrivial(steps >= 2);
+    let rt = fl.build();
+    let r = rt.block_on(async {
+        let it = YieldingIterator::new(0..3u32, interval); ensure!(it.processed_count() == 0, "processed_count", "fresh YieldingIterator reports {} processed items", it.processed_count());
+        let log: std::rc::Rc<std::cell::RefCell<Vec<(usize, usize)>>> = Default::default();
+        let sched = std::rc::Rc::new(if custom { AdaptiveYieldScheduler::with_config(ycfg.clone()) } else { AdaptiveYieldScheduler::new() });
+        let local = tokio::task::LocalSet::new();
+        let res: Result<Vec<(u64, u64, usize, usize, u64, u64)>, Fail> = local.run_until(async {
+            let mut hs = Vec::new();
+            for t in 0..k { let (log, sched, ops, ycfg) = (log.clone(), sched.clone(), ops[t].clone(), ycfg.clone());
+                hs.push(tokio::task::spawn_local(async move {
+                    let fy = if custom { FiberYield::with_config(ycfg) } else { FiberYield::new() }; let yp = YieldPoint::new(interval); let h = sched.register_fiber();
+                    let (mut sure, mut maybe, mut cps, mut hy) = (0u64, 0u64, 0usize, 0u64);
+                    for (s, &op) in ops.iter().enumerate() {
+                        log.borrow_mut().push((t, s));
+                        match op { 0 => { fy.yield_now().await; sure += 1; } 1 => { fy.force_yield().await; sure += 1; } 2 => { fy.yield_if_needed().await; maybe += 1; } 3 => { fy.yield_for(Duration::from_micros(1500)).await; sure += 1; }
+                            4 => { yp.checkpoint().await; cps += 1; } 5 => yp.yield_now().await, 6 => GlobalYield::yield_now().await, 7 => { if s % 2 == 0 { GlobalYield::force_yield().await } else { GlobalYield::yield_if_needed().await } }
+                            8 => { h.yield_now().await; hy += 1; } _ => { let _ = (fy.should_yield(), fy.budget(), fy.execution_time(), GlobalYield::should_yield()); fy.update_budget(if s % 3 == 0 { 0.9 } else { 0.1 }); } }
+                    }
+                    let _ = sched.load_factor(); // AdaptiveYieldScheduler::stats() returns a private type: not callable from outside the crate
+                    (fy.total_yields(), sure, cps, yp.operation_count(), h.stats().total_yields, (maybe << 32) | hy)
+                })); }
+            let mut out = Vec::new();
+            for h in hs { out.push(bounded(fl, "task using the fiber_yield primitives", h).await?.map_err(|e| Fail { oracle: "task_panic".into(), detail: e.to_string() })?); }
+            Ok(out)
+        }).await;
+        let res = res?;
+        let l = log.borrow();
+        for t in 0..k { let mine: Vec<usize> = l.iter().filter(|x| x.0 == t).map(|x| x.1).collect(); ensure!(mine == (0..steps).collect::<Vec<_>>(), "step_sequence", "task {t} logged {} steps for {steps} (first deviation at {:?})", mine.len(), (0..mine.len().min(steps)).find(|&i| mine[i] != i)); c.ev(steps as u64); }
+        for (t, &(total, sure, cps, opc, hy_stat, packed)) in res.iter().enumerate() { let (maybe, hy) = (packed >> 32, packed & 0xffff_ffff);
+            // counters are documented as "total number of yields performed" / "operation count": exact where every call yields
+            ensure!(total >= sure && total <= sure + maybe, "yield_count", "task {t}: FiberYield::total_yields()={total} after {sure} unconditional and {maybe} conditional yields");
+            ensure!(opc == cps, "operation_count", "task {t}: YieldPoint::operation_count()={opc} after {cps} checkpoints");
+            ensure!(hy_stat == hy, "yield_count", "task {t}: FiberYieldHandle stats().total_yields={hy_stat} after {hy} yield_now calls"); c.ev(3); }
+        // reset() is documented to reset the controller / the yield point
+        let fy = FiberYield::with_config(ycfg.clone()); fy.force_yield().await; fy.reset(); ensure!(fy.total_yields() == 0 && fy.budget() == ycfg.initial_budget && fy.execution_time() == Duration::ZERO, "reset_state", "FiberYield after reset(): total_yields={} budget={}", fy.total_yields(), fy.budget());
+        let yp = YieldPoint::new(interval); yp.checkpoint().await; yp.reset(); ensure!(yp.operation_count() == 0, "reset_state", "YieldPoint::operation_count()={} after reset()", yp.operation_count());
+        GlobalYield::yield_now().await; GlobalYield::reset(); let gs = GlobalYield::stats(); ensure!(gs.total_yields == 0, "reset_state", "GlobalYield::stats().total_yields={} right after reset()", gs.total_yields);
+        c.ev(3);
+        Ok(())
+    });
+    drop(rt); r
+}
+
+// ---- fiber_aio: whole-file save / load / copy and in-order reads; vectored helpers keep buffer order ---------------------
+/// wait (at most ~3 s, real time) until the file has `len` bytes; true when it did not have them at the first look
+async fn wait_len(p: &std::path::Path, len: usize) -> bool {
+    let has = |p: &std::path::Path| std::fs::metadata(p).map(|m| m.len() as usize >= len).unwrap_or(false);
+    if has(p) { return false; }
+    for _ in 0..600 { tokio::time::sleep(Duration::from_millis(5)).await; if has(p) { break; } }
+    true
+}
+fn aio_file_case(c: &mut Case) -> Res {
+    let fl = *c.rng.pick(&[Flav::CtReal, Flav::Mt(2)]);
+    let len = *c.rng.pick(&[0usize, 1, 31, 700, 5000, 20_000]); let data = { let k = c.rng.below(gen::BYTE_KINDS as u64) as u32; gen::bytes_kind(&mut c.rng, k, len) };
+    let custom = c.rng.chance(3, 4);
+    let cfg = if custom { FiberAioConfig { io_provider: if c.rng.bool() { IoProvider::Auto } else { IoProvider::Tokio }, read_buffer_size: *c.rng.pick(&[16usize, 64, 4096]), write_buffer_size: *c.rng.pick(&[16usize, 4096]), enable_vectored_io: c.rng.bool(), enable_direct_io: false, read_ahead_size: *c.rng.pick(&[32usize, 256, 8192]) } } else { FiberAioConfig::default() };
+    let sizes: Vec<usize> = (0..400).map(|_| *c.rng.pick(&[1usize, 3, 15, 16, 17, 63, 64, 100, 4096, 5000])).collect();
+    let chunks: Vec<usize> = (0..1 + c.rng.usize_below(6)).map(|_| 1 + c.rng.usize_below(40)).collect();
+    let positioned: Vec<(u8, usize, usize)> = (0..c.rng.usize_below(12)).map(|_| (c.rng.below(3) as u8, c.rng.usize_below(len + 2), *c.rng.pick(&[1usize, 16, 64, 5000]))).collect();
+    c.input_str("flav", &fl.name()); c.input("data", &data); c.input_str("cfg", &format!("custom={custom} read_buffer={} read_ahead={}", cfg.read_buffer_size, cfg.read_ahead_size)); c.input("chunks", &chunks.iter().map(|&x| x as u8).collect::<Vec<u8>>());
+    c.set_nontrivial(len >= 2);
+    let rt = fl.build(); let dir = tempfile::tempdir().expect("tempdir");
+    let r = rt.block_on(async {
+        let io = |what: &str, e: ZiporaError| Fail { oracle: "unexpected_err".into(), detail: format!("{what}: {e}") };
+        let aio = if custom { FiberAio::with_config(cfg.clone()) } else { FiberAio::new() }.map_err(|e| Fail { oracle: "ctor_err".into(), detail: e.to_string() })?;
+        if *aio.io_provider() == IoProvider::Auto { c.note("provider_left_auto", 1); } let _ = aio.config(); let _ = IoProvider::auto_detect();
+        let (p1, p2, p3) = (dir.path().join("a"), dir.path().join("b"), dir.path().join("c"));
+        aio.write_all(&p1, &data).await.map_err(|e| io("FiberAio::write_all", e))?;
+        // FiberAio::write_all / copy drop their tokio File without flush(): the last write may still be in flight on the blocking pool
+        // when they return. C18 does not cover that; the contents are compared once the file has its final length (bounded wait).
+        if wait_len(&p1, data.len()).await { c.note("aio_write_visible_late", 1); }
+        let back = aio.read_to_vec(&p1).await.map_err(|e| io("FiberAio::read_to_vec", e))?;
+        ensure!(back == data, "roundtrip_mismatch", "write_all + read_to_vec: {} bytes back for {} written", back.len(), data.len());
+        let copied = aio.copy(&p1, &p2).await.map_err(|e| io("FiberAio::copy", e))?;
+        if wait_len(&p2, data.len()).await { c.note("aio_write_visible_late", 1); }
+        let back2 = std::fs::read(&p2).map_err(|e| Fail { oracle: "unexpected_err".into(), detail: e.to_string() })?;
+        ensure!(copied == data.len() as u64 && back2 == data, "roundtrip_mismatch", "copy reported {copied} bytes, destination holds {} of {}", back2.len(), data.len());
+        c.ev(2);
+        // FiberFile: create + write / write_all in pieces, flush + sync, then sequential reads with changing buffer sizes
+        let mut w = aio.create(&p3).await.map_err(|e| io("FiberAio::create", e))?; let mut off = 0usize; let mut j = 0usize;
+        while off < data.len() { let e = (off + sizes[j % sizes.len()]).min(data.len());
+            if j % 2 == 0 { w.write_all(&data[off..e]).await.map_err(|e| io("FiberFile::write_all", e))?; off = e; } else { let k = w.write(&data[off..e]).await.map_err(|e| io("FiberFile::write", e))?; ensure!(k >= 1 && k <= e - off, "write_count", "write of {} bytes reported {k}", e - off); off += k; }
+            ensure!(w.position() == off as u64, "file_position", "position()={} after writing {off} bytes", w.position()); j += 1; }
+        w.flush().await.map_err(|e| io("flush", e))?; w.sync_data().await.map_err(|e| io("sync_data", e))?; w.sync_all().await.map_err(|e| io("sync_all", e))?; drop(w);
+        let mut f = aio.open(&p3).await.map_err(|e| io("FiberAio::open", e))?; let mut got = Vec::new(); let mut j = 0usize;
+        loop { let mut buf = vec![0u8; sizes[j % sizes.len()]]; j += 1; let k = f.read(&mut buf).await.map_err(|e| io("FiberFile::read", e))?; if k == 0 { break; } ensure!(k <= buf.len(), "read_count", "read into {} bytes reported {k}", buf.len()); got.extend_from_slice(&buf[..k]);
+            ensure!(f.position() == got.len() as u64, "file_position", "position()={} after reading {} bytes", f.position(), got.len()); if got.len() > data.len() { break; } }
+        ensure!(got == data, "roundtrip_mismatch", "pieces written with write/write_all and read back in order with read(): {} bytes for {} (first difference at {:?})", got.len(), data.len(), (0..got.len().min(data.len())).find(|&i| got[i] != data[i]));
+        c.ev(1);
+        // copy_to between two handles; read_to_end of a fresh handle
+        let mut src = aio.open(&p3).await.map_err(|e| io("open", e))?; let mut dst = aio.create(&p2).await.map_err(|e| io("create", e))?;
+        let k = src.copy_to(&mut dst).await.map_err(|e| io("FiberFile::copy_to", e))?; dst.flush().await.map_err(|e| io("flush", e))?; drop(dst);
+        let mut again = aio.open(&p2).await.map_err(|e| io("open", e))?; let all = again.read_to_end().await.map_err(|e| io("FiberFile::read_to_end", e))?;
+        ensure!(k == data.len() as u64 && all == data, "roundtrip_mismatch", "copy_to reported {k} bytes, read_to_end of the copy gives {} of {}", all.len(), data.len());
+        c.ev(1);
+        // positioned access (seek / read_at mixed with read): C18 says nothing about it - deviations are only noted
+        let mut f = aio.open(&p3).await.map_err(|e| io("open", e))?; let mut pos = 0usize;
+        for &(op, at, sz) in &positioned { let mut buf = vec![0u8; sz];
+            match op { 0 => { if let Ok(p) = f.seek(tokio::io::SeekFrom::Start(at as u64)).await { if p != at as u64 { c.note("seek_result_differs", 1); } pos = at; } }
+                1 => { if let Ok(k) = f.read_at(&mut buf, at as u64).await { let e = (at + k).min(data.len()); if at <= data.len() && buf[..k] != data[at.min(data.len())..e] { c.note("read_at_data_differs", 1); } if f.position() != pos as u64 { c.note("read_at_moved_position", 1); } } }
+                _ => { if let Ok(k) = f.read(&mut buf).await { let s = pos.min(data.len()); let e = (s + k).min(data.len()); if buf[..k] != data[s..e] || (k == 0 && s < data.len()) { c.note("positioned_read_data_differs", 1); } pos += k; } } } }
+        // vectored helpers on in-memory streams: buffers are consumed / filled in slice order
+        let mut parts: Vec<&[u8]> = Vec::new(); let mut o = 0usize; for &ch in &chunks { let e = (o + ch).min(data.len()); if e > o { parts.push(&data[o..e]); } o = e; }
+        let total: usize = parts.iter().map(|p| p.len()).sum();
+        let slices: Vec<std::io::IoSlice<'_>> = parts.iter().map(|p| std::io::IoSlice::new(p)).collect(); let mut sink: Vec<u8> = Vec::new();
+        let wrote = VectoredIo::write_vectored(&mut sink, &slices).await.map_err(|e| io("write_vectored", e))?;
+        ensure!(wrote == total && sink == data[..total], "vectored_order", "write_vectored reported {wrote} of {total} bytes; sink holds {} bytes, equal to the concatenation: {}", sink.len(), sink == data[..total]);
+        let mut bufs: Vec<Vec<u8>> = chunks.iter().map(|&ch| vec![0u8; ch]).collect(); let cap_total: usize = chunks.iter().sum();
+        let mut reader: &[u8] = &data;
+        let (n_read, filled) = { let mut rbs: Vec<tokio::io::ReadBuf<'_>> = bufs.iter_mut().map(|b| tokio::io::ReadBuf::new(b)).collect(); let n = VectoredIo::read_vectored(&mut reader, &mut rbs).await.map_err(|e| io("read_vectored", e))?; (n, rbs.iter().flat_map(|rb| rb.filled().to_vec()).collect::<Vec<u8>>()) };
+        ensure!(n_read == cap_total.min(data.len()) && filled == data[..n_read], "vectored_order", "read_vectored reported {n_read} bytes for buffers of {cap_total} over {} bytes; filled parts equal the prefix: {}", data.len(), filled == data[..n_read.min(data.len())]);
+        c.ev(2);
+        Ok(())
+    });
+    drop(rt); r
+}
+
+// ---- async blob stores: with_capacity constructor, compression wrapper ---------------------------------------------------
+fn store_case2(c: &mut Case, compressed: bool) -> Res {
+    let fl = if compressed { *c.rng.pick(&[Flav::CtReal, Flav::Mt(2)]) } else { *c.rng.pick(&[Flav::Ct, Flav::Mt(2), Flav::Mt(8)]) };
+    let n = pick_n(c, if compressed { 40 } else { 120 }); let conc = 1 + c.rng.usize_below(6); let capacity = *c.rng.pick(&[0usize, 1, 7, 1000]); let level = *c.rng.pick(&[1i32, 3, 9]);
+    let blobs: Vec<Vec<u8>> = (0..n).map(|_| gen::bytes_any(&mut c.rng, 2000).1).collect();
+    c.input_str("flav", &fl.name()); c.input_str("n", &n.to_string()); c.input_str("tasks", &conc.to_string()); c.input_str("store", &format!("capacity={capacity} level={level}")); for b in blobs.iter().take(3) { c.input("blob", b); } for b in blobs.iter().skip(3) { c.hash_more(b); }
+    c.set_nontrivial(n >= 2);
+    let rt = fl.build();
+    let r = if compressed { rt.block_on(async { store_roundtrip(c, fl, Arc::new(AsyncCompressedBlobStore::new(AsyncMemoryBlobStore::with_capacity(capacity), level)), blobs, conc).await }) }
+        else { rt.block_on(async { store_roundtrip(c, fl, Arc::new(AsyncMemoryBlobStore::with_capacity(capacity)), blobs, conc).await }) };
+    drop(rt); r
+}
+
+fn gap_targets(ctx: &mut Ctx) {
+    let n_alt = ctx.n(5, 300);
+    for &w in &[1usize, 2, 3, 8] { for &f in &[Flav::Ct, Flav::Mt(1), Flav::Mt(2), Flav::Mt(8)] {
+        let t = format!("exec/w{w}/{}", f.name());
+        for idx in 0..n_alt as u64 { ctx.case(&t, "closure", idx, |c| altsubmit_case(c, w, f, 1)); ctx.case(&t, "estdur", idx, |c| altsubmit_case(c, w, f, 2)); }
+    } }
+    for idx in 0..ctx.n(4, 16) as u64 { ctx.case("exec/global", "init", idx, global_exec_case); }
+    for idx in 0..ctx.n(2000, 40_000) as u64 { ctx.case("queue/direct", "ops", idx, queue_model_case); }
+    let per = ctx.n(150, 3000);
+    for mt in [false, true] { let sfx = if mt { "mt" } else { "ct" };
+        for idx in 0..per as u64 {
+            ctx.case(&format!("fiber/builder/{sfx}"), "gated", idx, |c| { let fl = pick_flav2(c, mt); fiber_builder_case(c, fl) });
+            ctx.case(&format!("pmap/spawn_blocking/{sfx}"), "mix", idx, |c| { let fl = pick_flav2(c, mt); spawn_blocking_case(c, fl) });
+        } }
+    for idx in 0..ctx.n(300, 6000) as u64 {
+        ctx.case("pipeline/builder", "stages", idx, pipe_builder_case);
+        ctx.case("yield/primitives", "steps", idx, yield_prims_case);
+        ctx.case("asyncstore/memory", "with_capacity", idx, |c| store_case2(c, false));
+    }
+    for idx in 0..ctx.n(100, 2500) as u64 { ctx.case("aio/file", "roundtrip", idx, aio_file_case); ctx.case("asyncstore/compressed", "mix", idx, |c| store_case2(c, true)); }
+}
+
 pub fn run(ctx: &mut Ctx) {
     zipora::verif_hooks::set_sched_hook(Some(hook));
     crate::ctx::enable_deadlock_probe(true);
     exec_targets(ctx);
     fiber_targets(ctx);
     other_targets(ctx);
+    gap_targets(ctx);
     zipora::verif_hooks::set_sched_hook(None);
 }
